@@ -158,11 +158,21 @@ def build(c):
     return (lambda: Weaver(cx, cy)), [cx, cy], line
 
 
+class Skip(Exception):
+    """the operation's documented precondition is not met in the current state: drop it"""
+
+
 def apply_op(w, op, rng_state=None):
     """apply one operation to the real object; returns the model request line"""
     from traffic_weaver import rfa as rfamod
     k = op["op"]
     x = np.asarray(w.x, dtype=float)
+    if not op.get("force"):
+        needs_spline = k == "smooth" or (k == "interp" and op["method"] in ("cubic", "spline"))
+        if needs_spline and len(x) < 5:
+            raise Skip()
+        if k in ("recreate", "repeat") and len(x) * (op.get("n", 1) * op.get("r", 1)) > 4000:
+            raise Skip()
     if k == "append":
         w.append_one_sample(make_periodic=op["periodic"])
         return f"wop append {1 if op['periodic'] else 0}"
@@ -186,7 +196,7 @@ def apply_op(w, op, rng_state=None):
         def bound(fr, kind, ratio, left):
             """returns (python value, protocol token)"""
             i = min(int(Fraction(fr) * (n - 1)), n - 2) if n >= 2 else 0
-            if kind == "raw":       # explicit value given by the generator (malformed stream)
+            if kind in ("raw", "rawratio"):       # explicit value given by the generator (malformed stream)
                 v = Fraction(fr)
                 return float(v), fmt(v)
             if kind == "on" and not ratio:
@@ -203,6 +213,12 @@ def apply_op(w, op, rng_state=None):
             return v, fmt(Fraction(v))
         lv, lt = bound(op["fa"], op["lk"], op["lr"], True)
         rv, rt = bound(op["fb"], op["rk"], op["rr"], False)
+        if op.get("swap") and lv < rv:
+            (lv, lt), (rv, rt) = (rv, rt), (lv, lt)
+        la = lv * span + float(x[0]) if op["lr"] else lv
+        ra = rv * span + float(x[0]) if op["rr"] else rv
+        if not la < ra and not op.get("force"):
+            raise Skip()      # empty / inverted range: not a valid request (exercised by the malformed stream)
         line = f"wop truncv {lt} {rt} {1 if op['lr'] else 0} {1 if op['rr'] else 0}"
         op["_line"] = line
         op["_args"] = [lv, rv]
@@ -213,6 +229,8 @@ def apply_op(w, op, rng_state=None):
             a, b = op["a"], op["b"]
         else:
             n = len(x)
+            if op.get("safe"):      # keep the reference non-trivial too (its length may differ after reshaping)
+                n = max(2, min(n, len(w.reference_x)))
             a = int(Fraction(op["fa"]) * n)
             b = None if op["stop_none"] else max(a + 2, int(Fraction(op["fb"]) * n))
             if b is not None and b > n:
@@ -341,16 +359,25 @@ def run_program(c):
     except Exception as e:  # noqa
         return {"steps": [{"err": err_kind(e)}], "lines": lines}
     steps.append({"ok": True, "state": snap(w, caller)})
+    executed = []
     for op in c["ops"]:
         op.pop("_line", None)
         try:
-            line = apply_op(w, op)
+            try:
+                line = apply_op(w, op)
+            except Skip:
+                continue
+            finally:
+                pass
+            executed.append(op)
             steps.append({"ok": True, "state": snap(w, caller)})
             lines.append(line)
         except Exception as e:  # noqa
+            executed.append(op)
             steps.append({"err": err_kind(e), "state": snap(w, caller)})
             lines.append(op.get("_line", "wop bad"))
             break
+    c["ops"] = executed + [o for o in c["ops"] if o not in executed and False]
     for q in c.get("queries", []):
         if q["q"] == "slice_i":
             lines.append(f"wslicei {q['start']} {'none' if q['stop'] is None else q['stop']} {q['step']}")
@@ -429,6 +456,15 @@ def compare_program(c, io, mo):
             if not all(math.isfinite(v) for v in iv):
                 return None   # non-finite values (constant data normalised, ...): outside the model
             if not close(iv, ms[k], 1e-8):
+                if k == "y" and i >= 1 and c["ops"][i - 1]["op"] == "interp" and c["ops"][i - 1]["method"] == "constant" \
+                        and i - 1 >= 0 and "state" in steps[i - 1]:
+                    # piecewise-constant interpolation is discontinuous at the samples: a grid point within rounding
+                    # distance of a sample may legitimately fall on either side (comparison rule 4)
+                    old = steps[i - 1]["state"]["x"]
+                    bad = [j for j, (a, b) in enumerate(zip(iv, ms[k])) if abs(a - float(b)) > 1e-8 * max(1, abs(float(b)))]
+                    newx = st["state"]["x"]
+                    if all(any(abs(newx[j] - o) <= 1e-9 * max(1.0, abs(o)) for o in old) for j in bad):
+                        return None
                 d = [(j, a, float(b)) for j, (a, b) in enumerate(zip(iv, ms[k])) if abs(a - float(b)) > 1e-8 * max(1, abs(float(b)))]
                 return f"step {i} ({what}): {k} differs, first {d[:3]}"
         # caller arrays are never modified
